@@ -442,6 +442,7 @@ type vHandlerState struct {
 }
 
 type vEngine struct {
+	lastInner context.Context // the caller's own context built by the last ctxFor (before the spying wrapper)
 	ev       *vEvents
 	conn     *simConn
 	hooks    *vHooks
@@ -651,6 +652,7 @@ func (e *vEngine) ctxFor(spec string) (context.Context, context.CancelFunc) {
 	}
 	// the caller's context is the caller's: reading its tags is a point at which a script can hold the calling goroutine
 	// (hook "CtxTags"), like the log and unwrapper callbacks
+	e.lastInner = ctx
 	return context.WithCancel(&vEngSpyCtx{Context: ctx, h: e.hooks})
 }
 
@@ -671,6 +673,7 @@ func (e *vEngine) op(f []string) {
 	case "call": // call/<cid>/<meth hex>/<arg>/<ctype>/<tagspec>/<timeout ms>
 		cs := &vCallState{id: f[1], done: make(chan struct{}), res: new(interface{})}
 		ctx, cancel := e.ctxFor(f[5])
+		inner, tagsBefore := e.lastInner, vTagsOf(e.lastInner)
 		cs.cancel = cancel
 		e.calls[f[1]] = cs
 		ct, _ := strconv.Atoi(f[4])
@@ -687,6 +690,8 @@ func (e *vEngine) op(f []string) {
 				err = e.cli.CallCompressed(ctx, meth, arg, cs.res, CompressionType(ct), time.Duration(to)*time.Millisecond)
 			}
 			cs.snap = vPrint(*cs.res)
+			// the caller's own context must show the same tags after the call as before it (contexts are never mutated)
+			e.ev.add("ctxtags/%s/%s/%s", f[1], tagsBefore, vTagsOf(inner))
 			e.ev.add("ret/%s/%s/%s", f[1], vErrClass(err), cs.snap)
 			close(cs.done)
 		}()
@@ -763,6 +768,7 @@ func (e *vEngine) op(f []string) {
 	case "notify": // notify/<cid>/<meth>/<arg>/<tagspec>/<timeout ms>
 		cs := &vCallState{id: f[1], done: make(chan struct{})}
 		ctx, cancel := e.ctxFor(f[4])
+		inner, tagsBefore := e.lastInner, vTagsOf(e.lastInner)
 		cs.cancel = cancel
 		e.calls[f[1]] = cs
 		to, _ := strconv.Atoi(f[5])
@@ -771,6 +777,7 @@ func (e *vEngine) op(f []string) {
 		e.ev.add("callstart/%s", f[1])
 		go func() {
 			err := e.cli.Notify(ctx, meth, arg, time.Duration(to)*time.Millisecond)
+			e.ev.add("ctxtags/%s/%s/%s", f[1], tagsBefore, vTagsOf(inner))
 			e.ev.add("ret/%s/%s/n", f[1], vErrClass(err))
 			close(cs.done)
 		}()
